@@ -744,7 +744,13 @@ func c13Short(s []byte) string {
 	return fmt.Sprintf("%x…(%d bytes)", s[:80], len(s))
 }
 
+var c13Judged uint64
+
 func c13JudgeScript(c *mon.Ctx, in *c13Script) {
+	ownerEditsDecodedEmpties(c)
+	if c13Judged++; c13Judged%64 == 0 && len(in.Script) != 0 { // the empty script, again and again between the others
+		c13JudgeScript(c, &c13Script{Script: []byte{}, Class: "empty-script-revisited"})
+	}
 	c.Eval(1)
 	s := mon.Exact(in.Script) // capacity == length
 	scr := bscript.NewFromBytes(s)
